@@ -72,7 +72,7 @@ func hashMain(args []string) error {
 	root := fs.String("root", "", "sandbox root (created, exclusively owned)")
 	in := fs.String("in", "-", "scenario ndjson")
 	out := fs.String("out", "-", "record ndjson")
-	perTimeout := fs.Duration("timeout", 10*time.Second, "per scenario watchdog")
+	perTimeout := fs.Duration("timeout", 40*time.Second, "per scenario watchdog (a scenario is all its repetitions)")
 	maxBad := fs.Int("maxbad", 4, "after this many crashed / hung scenarios the remaining ones are recorded as not-run")
 	fs.Parse(args)
 	if *root == "" {
@@ -342,6 +342,7 @@ func (h *hashChild) handle(line []byte) any {
 					for _, p := range s.Churn {
 						abs := filepath.Join(h.root, p)
 						os.Remove(abs)
+						time.Sleep(30 * time.Microsecond) // the file is gone for a moment; also leaves the CPU to the pool on a one-CPU affinity mask
 						os.WriteFile(abs, []byte("churn"), 0o644)
 						select {
 						case <-stopChurn:
